@@ -25,6 +25,21 @@ type CtxLike interface {
 	Close() error
 }
 
+// reuseBuf is an application that reuses its send buffer: as soon as Send([]byte) has returned, the
+// slice it passed is overwritten.  Send copies, so this is invisible to a correct library; a request
+// or survey that is kept for (re)transmission as an alias of the caller's slice shows up as a
+// transmission that is no longer the bytes that were sent (reported through ReqRig.Bad and the
+// byte-identity oracles of the checks built on this rig).
+type reuseBuf struct{ CtxLike }
+
+func (a reuseBuf) Send(b []byte) error {
+	err := a.CtxLike.Send(b)
+	for i := range b {
+		b[i] = 0xEE
+	}
+	return err
+}
+
 // WireTx is one request transmission observed on a vt pipe.
 type WireTx struct {
 	Ctx, K int
@@ -63,13 +78,13 @@ func NewReqRig(c *mon.Case, proto string, nctx, npipes int) *ReqRig {
 	if err := r.Sock.Listen(vt.Addr(name)); err != nil {
 		panic(err)
 	}
-	r.Ctxs = append(r.Ctxs, r.Sock)
+	r.Ctxs = append(r.Ctxs, reuseBuf{r.Sock})
 	for i := 1; i < nctx; i++ {
 		cx, err := r.Sock.OpenContext()
 		if err != nil {
 			panic(err)
 		}
-		r.Ctxs = append(r.Ctxs, cx)
+		r.Ctxs = append(r.Ctxs, reuseBuf{cx})
 	}
 	for i := 0; i < npipes; i++ {
 		r.AddPipe()
